@@ -10,7 +10,7 @@ use std::collections::BTreeSet;
 macro_rules! harness {
     ($name:ident, $body:expr) => {
         #[kani::proof]
-        #[kani::unwind(100)]
+        #[kani::unwind(5)]
         #[kani::stub(crate::parser::parse_value, no_parse_value)]
         #[kani::stub(crate::de::from_slice, no_from_slice)]
         #[kani::stub(std::ptr::drop_in_place, noop_drop)]
@@ -717,7 +717,7 @@ harness!(c06_delpath_nn, split1(3, |k| kdoc(3 + k, |d| del_keypath(d, 5))));
 //@ desc: vacuity twin: concat of two arrays claimed to fail — must be refuted
 //@ fns: concat
 #[kani::proof]
-#[kani::unwind(100)]
+#[kani::unwind(5)]
 #[kani::stub(crate::parser::parse_value, no_parse_value)]
 #[kani::stub(crate::de::from_slice, no_from_slice)]
 #[kani::stub(std::ptr::drop_in_place, noop_drop)]
